@@ -293,6 +293,9 @@ func compareTable(c *fw.Ctx, rule, what string, fn *ssa.Function, resIdx int, va
 			return
 		}
 		rows, maybe, unk := t.Eval3(ip.env(a))
+		if len(rows) == 0 && want == "<no path>" {
+			return // the rules call this combination infeasible and no path is established for it
+		}
 		if len(rows) == 0 && len(maybe) > 0 {
 			// no path is established; the candidates are the paths that depend on conditions the
 			// rule does not know. If they all decide what the rules decide, those conditions do
